@@ -153,7 +153,21 @@ fn c15_sentence(rng: &mut Rng) -> RefSentence {
     }
     let n = chars.len();
     let uw = *rng.pick(&[0u32, 3, 10]);
-    let labels = vgen::gen::gen_labels(rng, n - 1, uw);
+    let mut labels = vgen::gen::gen_labels(rng, n - 1, uw);
+    // rare: one token of 64 characters or more (rule tables keyed by surface must cope with long surfaces)
+    if n >= 70 && rng.chance(1, 4) {
+        let len = *rng.pick(&[63usize, 64, 65, 66]).min(&(n - 2));
+        let st = rng.below(n - len);
+        for l in labels[st..st + len - 1].iter_mut() {
+            *l = 0;
+        }
+        if st > 0 {
+            labels[st - 1] = 1;
+        }
+        if st + len - 1 < n - 1 {
+            labels[st + len - 1] = 1;
+        }
+    }
     let n_tags = if rng.chance(1, 80) { rng.urange(31, 40) } else { rng.below(4) };
     let tags = (0..n).map(|_| (0..n_tags).map(|_| if rng.chance(1, 3) { Some(rng.pick(&["N", "V", "x y", ""]).to_string()) } else { None }).collect()).collect();
     RefSentence { chars, labels, tags }
@@ -162,6 +176,12 @@ fn c15_sentence(rng: &mut Rng) -> RefSentence {
 fn c15_rules(rng: &mut Rng, rs: &RefSentence) -> Vec<(String, Vec<Option<String>>)> {
     let mut rules: Vec<(String, Vec<Option<String>>)> = vec![];
     let spans = ref_partition(rs.chars.len(), &rs.labels);
+    // a token of 63 characters or more always gets a rule
+    if let Some(sp) = spans.iter().find(|sp| sp.end - sp.start >= 63) {
+        let surf: String = rs.chars[sp.start..sp.end].iter().collect();
+        let k = if rs.max_tags() > 8 { 34 } else { 3 };
+        rules.push((surf, (0..k).map(|_| Some("L".to_string())).collect()));
+    }
     for _ in 0..rng.below(5) {
         let surf: String = if !spans.is_empty() && rng.chance(3, 4) {
             let sp = rng.pick(&spans);
@@ -311,6 +331,15 @@ pub fn run_c15(ctx: &mut Ctx, from: u64, to: u64) {
         ctx.begin_case(k);
         let mut rng = Rng::new(case_seed(ctx.seed, "C15", k));
         let mut rs = c15_sentence(&mut rng);
+        if !ctx.tiny && k % 3000 == 777 {
+            // tens of thousands of consecutive tokens that each touch an unannotated boundary
+            let n = rng.urange(60_000, 70_000);
+            let a: Vec<char> = rs.chars.iter().copied().filter(|c| *c != '\r' && *c != '\n').chain("ab".chars()).collect();
+            rs = RefSentence { chars: (0..n).map(|_| *rng.pick(&a)).collect(), labels: (0..n - 1).map(|i| if i % 2 == 0 { 1 } else { 2 }).collect(), tags: vec![vec![None]; n] };
+            let last = rs.labels.len() - 1;
+            rs.labels[last] = 1;
+            ctx.count("sentences_with_tens_of_thousands_of_skipped_tokens", 1);
+        }
         if ctx.tiny && rs.chars.len() > 8 {
             rs.chars.truncate(8);
             rs.labels.truncate(7);
@@ -324,6 +353,7 @@ pub fn run_c15(ctx: &mut Ctx, from: u64, to: u64) {
         ctx.flag("sentences_with_tags", rs.max_tags() > 0);
         ctx.flag("sentences_with_empty_string_tag", rs.tags.iter().flatten().any(|t| t.as_deref() == Some("")));
         ctx.flag("single_character_sentences", rs.chars.len() == 1);
+        ctx.flag("sentences_with_rule_for_token_of_63_or_more_chars", ref_partition(rs.chars.len(), &rs.labels).iter().any(|sp| sp.end - sp.start >= 63));
         ctx.flag("sentences_with_cluster_longer_than_64_bytes", s.graphemes(true).any(|g| g.len() > 64));
         ctx.flag("sentences_with_more_than_32_tag_columns", rs.max_tags() > 32);
         let mut specs: Vec<FilterSpec> = (0..6).map(FilterSpec::WsConst).collect();
